@@ -26,6 +26,8 @@ use subjects::{Subject, subjects};
 static ALLOC: codecmc::CountingAlloc = codecmc::CountingAlloc;
 
 const BIN: &str = "enum_codec";
+/// the cases of one type are dealt round-robin to this many work items
+const SHARDS: usize = 8;
 
 /////////////////////////////////////////////// plan ///////////////////////////////////////////////
 
@@ -57,8 +59,8 @@ fn plan(args: &Args) -> Plan {
 #[derive(Clone, Debug)]
 enum Work {
     RoundTrip(usize),
-    Mutations(usize),
-    Insertions(usize),
+    Mutations(usize, usize),
+    Insertions(usize, usize),
     AlphaShort(usize),
     Alpha(usize, usize, usize),
 }
@@ -68,8 +70,8 @@ impl Work {
         let name = |t: &usize| subs[*t].schema.name.clone();
         match self {
             Work::RoundTrip(t) => json!({"kind": "round-trip", "type": name(t)}),
-            Work::Mutations(t) => json!({"kind": "mutations", "type": name(t)}),
-            Work::Insertions(t) => json!({"kind": "insertions", "type": name(t)}),
+            Work::Mutations(t, k) => json!({"kind": "mutations", "type": name(t), "shard": k}),
+            Work::Insertions(t, k) => json!({"kind": "insertions", "type": name(t), "shard": k}),
             Work::AlphaShort(t) => json!({"kind": "alphabet-short", "type": name(t)}),
             Work::Alpha(t, i, j) => json!({"kind": "alphabet", "type": name(t), "first": i, "second": j}),
         }
@@ -79,8 +81,8 @@ impl Work {
         let t = type_index(subs, v["type"].as_str().unwrap());
         match v["kind"].as_str().unwrap() {
             "round-trip" => Work::RoundTrip(t),
-            "mutations" => Work::Mutations(t),
-            "insertions" => Work::Insertions(t),
+            "mutations" => Work::Mutations(t, v["shard"].as_u64().unwrap() as usize),
+            "insertions" => Work::Insertions(t, v["shard"].as_u64().unwrap() as usize),
             "alphabet-short" => Work::AlphaShort(t),
             "alphabet" => Work::Alpha(t, v["first"].as_u64().unwrap() as usize, v["second"].as_u64().unwrap() as usize),
             k => panic!("unknown work kind {k}"),
@@ -90,8 +92,8 @@ impl Work {
     fn run(&self, subs: &[Subject], p: &Plan, rep: &mut Report) {
         match self {
             Work::RoundTrip(t) => msgs::run_round_trips(&subs[*t], rep),
-            Work::Mutations(t) => msgs::run_mutations(&subs[*t], p.pair_stride, rep),
-            Work::Insertions(t) => msgs::run_insertions(&subs[*t], rep),
+            Work::Mutations(t, k) => msgs::run_mutations(&subs[*t], p.pair_stride, *k, SHARDS, rep),
+            Work::Insertions(t, k) => msgs::run_insertions(&subs[*t], *k, SHARDS, rep),
             Work::AlphaShort(t) => {
                 let a = hostile::alphabet(&subs[*t].schema, p.thorough);
                 hostile::sweep(&subs[*t], &a, &[], 1.min(p.alpha_len), rep);
@@ -113,11 +115,13 @@ fn type_index(subs: &[Subject], name: &str) -> usize {
 fn work_items(subs: &[Subject], p: &Plan) -> Vec<Work> {
     let mut items = vec![];
     for t in 0..subs.len() {
-        items.push(Work::RoundTrip(t));
+        for k in 0..SHARDS {
+            items.push(Work::Mutations(t, k));
+            items.push(Work::Insertions(t, k));
+        }
     }
     for t in 0..subs.len() {
-        items.push(Work::Mutations(t));
-        items.push(Work::Insertions(t));
+        items.push(Work::RoundTrip(t));
         items.push(Work::AlphaShort(t));
     }
     for t in 0..subs.len() {
@@ -156,7 +160,11 @@ fn child_all(args: &Args) {
         let r = vcore::parallel(items, threads, mk, |item, rep| {
             let slot = wip_dir.join(format!("wip-{}", wip_slot()));
             let _ = std::fs::write(&slot, item.to_json(&subs).to_string());
+            let t0 = std::time::Instant::now();
             item.run(&subs, &p, rep);
+            if std::env::var("VERIF_TIMING").is_ok() && t0.elapsed().as_secs_f64() > 0.5 {
+                eprintln!("{:.2}s {}", t0.elapsed().as_secs_f64(), item.to_json(&subs));
+            }
             let _ = std::fs::write(&slot, "null");
         });
         total.merge(r);
@@ -171,6 +179,9 @@ fn child_item(args: &Args) {
     let subs = subjects();
     let v: Value = serde_json::from_str(args.get("child-item").unwrap()).expect("item json");
     let item = Work::from_json(&v, &subs);
+    if let Some(p) = args.get("last-input") {
+        let _ = WRITE_AHEAD.set(PathBuf::from(p));
+    }
     let mut rep = Report::new(BIN, PROP);
     item.run(&subs, &p, &mut rep);
     println!("item finished: {} cases, {} violation signatures", rep.evaluations, rep.violation_sigs.len());
@@ -191,6 +202,15 @@ fn tree_bytes(depth: usize) -> Vec<u8> {
     out.extend_from_slice(&[0x08, 0x01]);
     assert_eq!(out.len(), lens[depth]);
     out
+}
+
+/// Decode one input into one type and exit normally (the supervisor looks at the exit status).
+fn child_input(args: &Args) {
+    let subs = subjects();
+    let s = &subs[type_index(&subs, args.get("child-input").unwrap())];
+    let buf = unhex(args.get("bytes").unwrap_or(""));
+    let d = decode(s, &buf);
+    println!("{} (largest allocation request {} bytes)", d.obs.show(), d.peak);
 }
 
 fn child_depth(args: &Args) {
@@ -323,27 +343,39 @@ fn child_died(args: &Args, wip_dir: &Path, status: &str) -> Report {
         if text == "null" || text.is_empty() {
             continue;
         }
-        let out = self_cmd(args).arg("--child-item").arg(&text).output().expect("spawn");
+        let last = wip_dir.join("last-input");
+        let _ = std::fs::remove_file(&last);
+        let run = |c: &mut Command| c.arg("--child-item").arg(&text).arg("--last-input").arg(&last).output().expect("spawn");
+        let out = run(&mut self_cmd(args));
         rep.evaluations += 1;
         if out.status.success() {
             continue;
         }
-        let again = self_cmd(args).arg("--child-item").arg(&text).output().expect("spawn");
-        if again.status.success() {
+        let first = std::fs::read_to_string(&last).unwrap_or_default();
+        let again = run(&mut self_cmd(args));
+        let second = std::fs::read_to_string(&last).unwrap_or_default();
+        if again.status.success() || first != second {
             rep.count("non_reproducible_findings", 1);
             continue;
         }
         culprits += 1;
         let item: Value = serde_json::from_str(&text).unwrap();
+        let (ty, hex) = first.split_once(' ').unwrap_or(("?", ""));
         record(
             &mut rep,
-            format!("process-abort work={} type={}", item["kind"].as_str().unwrap_or("?"), item["type"].as_str().unwrap_or("?")),
+            format!("process-abort type={ty} work={}", item["kind"].as_str().unwrap_or("?")),
             format!(
-                "the process running this work item ended with {}: {}",
+                "unpacking {hex} into {ty} ended the process with {}: {}; expected Ok or Err",
                 out.status,
-                String::from_utf8_lossy(&out.stderr).chars().take(300).collect::<String>()
+                String::from_utf8_lossy(&out.stderr)
+                    .lines()
+                    .find(|l| l.contains("memory allocation") || l.contains("overflowed") || l.contains("panicked"))
+                    .unwrap_or("")
+                    .chars()
+                    .take(200)
+                    .collect::<String>()
             ),
-            json!({"phase": "abort-item", "item": item}),
+            json!({"phase": "abort-input", "type": ty, "bytes": hex, "item": item}),
         );
     }
     if culprits == 0 {
@@ -370,6 +402,7 @@ fn describe(rep: &mut Report, p: &Plan) {
             "symbol_alphabet": vp.sym_alphabet.iter().map(|b| format!("{b:02x}")).collect::<Vec<_>>(),
             "symbol_strings_up_to_len": vp.sym_len,
             "buffers_per_string": "exact; +1 trailing byte of {00,01,7f,80,ff}; +10 trailing bytes of 4 patterns (forces the unrolled path)",
+            "reduced_buffers_from_len": if vp.light_len == usize::MAX { json!(null) } else { json!({"len": vp.light_len, "buffers": "exact; +ff x10"}) },
             "encode_values": "0, 1, 2^k-1, 2^k, 2^k+1 for k = 1..63, u64::MAX",
         },
         "messages": {
@@ -442,9 +475,11 @@ fn replay(args: &Args, rf: &Value) {
         "insert" => {
             let s = &subs[type_index(&subs, case["type"].as_str().unwrap())];
             let v = Val::from_json(&case["value"]);
+            let bs = msgs::boundaries(&s.schema, &v);
             let ins = msgs::insertion(
                 &s.schema,
                 &v,
+                &bs,
                 case["boundary"].as_u64().unwrap() as usize,
                 case["unknown"].as_u64().unwrap() as usize,
             )
@@ -462,6 +497,23 @@ fn replay(args: &Args, rf: &Value) {
             let r = depth_probe(args, d);
             println!("Tree nested {d} deep ({} bytes): expected ok, observed {r}", tree_bytes(d).len());
             failed = r != "ok";
+        }
+        "abort-input" => {
+            let out = self_cmd(args)
+                .arg("--child-input")
+                .arg(case["type"].as_str().unwrap())
+                .arg("--bytes")
+                .arg(case["bytes"].as_str().unwrap())
+                .output()
+                .expect("spawn");
+            println!(
+                "unpack {} into {}: expected a normal exit with Ok or Err, observed {} {}",
+                case["bytes"].as_str().unwrap(),
+                case["type"].as_str().unwrap(),
+                out.status,
+                String::from_utf8_lossy(&out.stdout).trim()
+            );
+            failed = !out.status.success();
         }
         "abort-item" => {
             let text = case["item"].to_string();
@@ -489,6 +541,8 @@ fn main() {
         replay(&args, &rf);
     } else if args.flag("child-depth") {
         child_depth(&args);
+    } else if args.flag("child-input") {
+        child_input(&args);
     } else if args.flag("child-item") {
         child_item(&args);
     } else if args.flag("child") {
